@@ -641,6 +641,24 @@ fn run_small(acc: &mut Acc) {
             other => report(acc, "listplaylists-rejected", format!("[listplaylists] {other:?}"), "listplaylists", &fields),
         }
     }
+    // other RFC 3339 spellings of a modification date (offsets, fractions): the value is what the server sent
+    // (round 7: the chrono build re-rendered it in canonical form)
+    for date in TIMESTAMP_SPELLINGS {
+        let fields: Fields = vec![f("playlist", "p"), f("Last-Modified", *date), f("playlist", "q"), f("Last-Modified", "2020-06-12T17:53:00Z")];
+        acc.replies += 1;
+        acc.checks += 1;
+        acc.nontrivial += 1;
+        match catch(|| c::GetPlaylists.response(frame_of(&fields))) {
+            Ok(Ok(ps)) => {
+                let got: Vec<(String, String)> = ps.iter().map(|p| (p.name.clone(), p.last_modified.raw().to_string())).collect();
+                let want = vec![("p".to_string(), date.to_string()), ("q".to_string(), "2020-06-12T17:53:00Z".to_string())];
+                if got != want {
+                    report(acc, "listplaylists-value", format!("[listplaylists] decoded {got:?}, server sent {want:?}"), "listplaylists", &fields);
+                }
+            }
+            other => report(acc, "listplaylists-rejected", format!("[listplaylists] {other:?}"), "listplaylists", &fields),
+        }
+    }
     // stickers: values containing '='
     for (name, value) in [("rating", "5"), ("k", "a=b"), ("k", "=x"), ("k", ""), ("k", "a=b=c"), ("n n", "v v")] {
         let fields: Fields = vec![f("sticker", format!("{name}={value}"))];
@@ -757,6 +775,12 @@ fn run_small(acc: &mut Acc) {
     }
 }
 
+/// well-formed RFC 3339 timestamps in other spellings than MPD's `...SSZ`
+pub const TIMESTAMP_SPELLINGS: &[&str] = &[
+    "2020-06-12T17:53:00Z", "2020-06-12T17:53:00+00:00", "2020-06-12T19:53:00+02:00", "2020-06-12T12:23:00-05:30", "2020-06-12T17:53:00.5Z", "2020-06-12T17:53:00.50Z", "2020-06-12T17:53:00.123456789Z",
+    "2020-06-12T17:53:00.250+01:00", "1970-01-01T00:00:00Z", "2038-01-19T03:14:08Z", "9999-12-31T23:59:59Z",
+];
+
 pub fn run(tier: Tier) -> i32 {
     let mut ctx = Ctx::new("C16", tier, "model_checking");
     ctx.assume("replies are written with the protocol's field names and in MPD's order (status: handle_status; legacy `time: elapsed:total` when `duration` is absent); non-Option struct fields (volume, playlist, playlistlength, xfade, single) default to 0 / disabled when omitted");
@@ -775,7 +799,9 @@ pub fn run(tier: Tier) -> i32 {
     cov.set("field_comparisons", json!(acc.checks));
     cov.set("state_meaning", json!("states = distinct abstract replies (incl. orderings); transitions = field comparisons between the decoded value and the abstract reply"));
     cov.samples = vec![json!({"status_fields": AStatus::base(0b101_0010_1001).encode()}), json!({"count_group": [["Album", "a"], ["playtime", "10"], ["songs", "1"]]})];
-    finish(&ctx, cov, acc.viol)
+    let (mut cov, mut viol) = (cov, acc.viol);
+    second_build_pass(&ctx, &mut cov, &mut viol);
+    finish(&ctx, cov, viol)
 }
 
 pub fn replay(case: &Value) -> i32 {
